@@ -577,3 +577,65 @@ func rangeBodyAlways(c *Ctx, rule string, fn *ssa.Function, key, ranged string, 
 		c.Bad(rule, key, c.P.Pos(fn.Pos()), require, "no range loop over "+ranged+" containing the effect")
 	}
 }
+
+// ---------------------------------------------------------------------------
+// S-BOOTSTRAP: bootstrapping (which writes term 1 and log entry 1) is refused
+// whenever any persisted state exists.
+// ---------------------------------------------------------------------------
+
+func sBootstrapGuard(c *Ctx, rule string) {
+	if fn := c.Fn(rule, "HasExistingState"); fn != nil {
+		term := "p2.GetUint64(@keyCurrentTerm)"
+		r := c.Run(&engine.Automaton{Fn: fn, Tracks: []engine.Track{
+			engine.Event("readTerm", callWithArg0(c, "iface:StableStore.GetUint64", "@keyCurrentTerm")),
+			engine.PredRel("termErr", term+"#1", "nil", engine.LT|engine.GT),
+			engine.PredRel("termErrOther", term+"#1.Error()", `"not found"`, engine.LT|engine.GT),
+			engine.PredRel("termPos", term+"#0", "0", engine.GT),
+			engine.Event("readLast", c.P.IsCallTo(engine.Is("iface:LogStore.LastIndex"))),
+			engine.PredRel("lastErr", "p1.LastIndex()#1", "nil", engine.LT|engine.GT),
+			engine.PredRel("lastPos", "p1.LastIndex()#0", "0", engine.GT),
+			engine.Event("listed", c.P.IsCallTo(engine.Is("iface:SnapshotStore.List"))),
+			engine.PredRel("listErr", "p3.List()#1", "nil", engine.LT|engine.GT),
+			engine.PredRel("haveSnaps", "len(p3.List()#0)", "0", engine.GT),
+		}})
+		n := 0
+		for _, ret := range engine.ReturnsOf(fn) {
+			vals := engine.ReturnValues(ret)
+			if len(vals) == 2 && c.P.D(vals[0]) == "false" && c.P.D(vals[1]) == "nil" {
+				n++
+				c.RequireAt(r, rule, "HasExistingState:no-state-verdict", ret,
+					"(false, nil) only when: the term was read and is not > 0 (or is absent: 'not found'), LastIndex was read without error and is not > 0, and List was read without error and is empty",
+					func(v engine.View) bool {
+						termOK := v.Seen("readTerm") && ((v.F("termErr") && v.F("termPos")) || (v.T("termErr") && v.F("termErrOther")))
+						logOK := v.Seen("readLast") && v.F("lastErr") && v.F("lastPos")
+						snapOK := v.Seen("listed") && v.F("listErr") && v.F("haveSnaps")
+						return termOK && logOK && snapOK
+					})
+			}
+		}
+		if n == 0 {
+			c.Bad(rule, "HasExistingState:no-state-verdict", c.P.Pos(fn.Pos()), "a return (false, nil)", "none")
+		}
+	}
+	if fn := c.Fn(rule, "BootstrapCluster"); fn != nil {
+		r := c.Run(&engine.Automaton{Fn: fn, Tracks: []engine.Track{
+			engine.Event("asked", c.P.IsCallTo(engine.Is("HasExistingState"))),
+			engine.PredRel("askErr", "HasExistingState(p2, p3, p4)#1", "nil", engine.LT|engine.GT),
+			engine.PredBool("hasState", DescIs("HasExistingState(p2, p3, p4)#0")),
+			engine.Event("cfgChecked", callWithArg0(c, "checkConfiguration", "p6")),
+			predErr("cfgErr", "checkConfiguration("),
+		}})
+		n := 0
+		for _, s := range c.P.CallsIn(fn, func(n string) bool {
+			return strings.HasPrefix(n, "iface:StableStore.Set") || strings.HasPrefix(n, "iface:LogStore.Store")
+		}) {
+			n++
+			c.RequireAt(r, rule, "BootstrapCluster:"+s.Note+"-only-on-empty-stores", s.Instr, "HasExistingState(logs, stable, snaps) returned (false, nil) and the configuration passed checkConfiguration before anything is written", func(v engine.View) bool {
+				return v.Seen("asked") && v.F("askErr") && v.F("hasState") && v.Seen("cfgChecked") && v.F("cfgErr")
+			})
+		}
+		if n < 2 {
+			c.Bad(rule, "BootstrapCluster:writes", c.P.Pos(fn.Pos()), "writes term 1 and log entry 1", fmt.Sprintf("%d store writes found", n))
+		}
+	}
+}
